@@ -42,11 +42,12 @@ var (
 	c33hook      c33Hook
 	c33hookTried bool
 	c33genRan    bool
-	c33helpers   sync.WaitGroup // compiled goroutines started by the scenario helpers
+	c33helpers   = &sync.WaitGroup{} // compiled goroutines started by the scenario helpers (one group per scenario)
 	c33yieldSeed uint64
 	c33yieldCtr  uint64
 	c33curScn    string
 	c33scnForeign bool
+	c33timeouts   int
 )
 
 func c33getHook() c33Hook {
@@ -67,10 +68,9 @@ func c33getHook() c33Hook {
 	return c33hook
 }
 
-const c33prelude = `import "sync"
-var wg sync.WaitGroup
-var mu sync.Mutex
-var total int
+// wg (*sync.WaitGroup) and mu (*sync.Mutex) are compiled objects declared with DeclVar: importing "sync"
+// costs one `go list -export` subprocess per interpreter
+const c33prelude = `var total int
 var fch = make(chan func(int) int, 256)
 func leaf(n int) int { s := 0; for i := 0; i < n; i++ { x := i * 2; s += x }; return s }
 func rec(n int) int { if n <= 0 { return 1 }; y := rec(n - 1); return y + 1 }
@@ -137,24 +137,49 @@ func (e *c33env) run(expr *fast.Expr) {
 
 // c33go runs f in a new compiled goroutine that logs its exit
 func c33go(f func()) {
-	c33helpers.Add(1)
+	done := c33track()
 	go func() {
-		defer c33helpers.Done()
+		defer done()
 		defer c33hook.VerifC33Ctl("exit", nil)
+		defer c33recover()
 		f()
 	}()
+}
+
+// c33track registers one more compiled goroutine in the current scenario's group
+func c33track() (done func()) {
+	wg := c33helpers
+	wg.Add(1)
+	return wg.Done
+}
+
+var c33panics struct {
+	sync.Mutex
+	msgs []string
+}
+
+// a panic escaping from interpreted code called by a compiled goroutine is an error of the scenario
+func c33recover() {
+	if r := recover(); r != nil {
+		c33panics.Lock()
+		c33panics.msgs = append(c33panics.msgs, "panic-in-compiled-goroutine "+oneLine(fmt.Sprint(r)))
+		c33panics.Unlock()
+	}
 }
 
 func c33newEnv() *c33env {
 	e := &c33env{ir: newQuietInterp(), gate: make(chan int), inBlock: make(chan struct{})}
 	e.ir.DeclVar("gate", nil, e.gate)
+	e.ir.DeclVar("wg", nil, &sync.WaitGroup{})
+	e.ir.DeclVar("mu", nil, &sync.Mutex{})
 	e.ir.DeclFunc("inblock", func() { close(e.inBlock) })
 	e.ir.DeclFunc("fgo", func(f func()) { c33go(f) })
 	e.ir.DeclFunc("after", func(ms int, f func()) {
-		c33helpers.Add(1)
+		done := c33track()
 		time.AfterFunc(time.Duration(ms)*100*time.Microsecond, func() {
-			defer c33helpers.Done()
+			defer done()
 			defer c33hook.VerifC33Ctl("exit", nil)
+			defer c33recover()
 			f()
 		})
 	})
@@ -243,7 +268,34 @@ func c33funcs(e *c33env) (leaf, clo, wd func(int) int, ok bool) {
 }
 
 // c33runScenario executes one scenario on the real code and returns its event lines.
+// c33runScenario runs one scenario under a watchdog: a scenario that does not terminate (possible only
+// when the interpreter misbehaves) is reported as an error together with the events logged so far.
 func c33runScenario(kind string, seed int64, procs, size int) (lines []string, tags []string) {
+	type res struct{ l, t []string }
+	if c33timeouts >= 2 {
+		return []string{"error skipped-after-two-timeouts => ERR"}, []string{"timeout"}
+	}
+	ch := make(chan res, 1)
+	c33helpers = &sync.WaitGroup{}
+	go func() {
+		l, t := c33runScenarioBody(kind, seed, procs, size)
+		ch <- res{l, t}
+	}()
+	select {
+	case r := <-ch:
+		return r.l, r.t
+	case <-time.After(90 * time.Second):
+		c33timeouts++
+		if h := c33getHook(); h != nil {
+			ev := h.VerifC33Ctl("events", nil)
+			h.VerifC33Ctl("stop", nil)
+			lines, _ = c33translate(ev, nil)
+		}
+		return append(lines, "error scenario-timeout => ERR"), []string{"timeout"}
+	}
+}
+
+func c33runScenarioBody(kind string, seed int64, procs, size int) (lines []string, tags []string) {
 	h := c33getHook()
 	if h == nil {
 		return []string{"hook => HOOK-MISSING"}, []string{"hook-missing"}
@@ -266,6 +318,7 @@ func c33runScenario(kind string, seed int64, procs, size int) (lines []string, t
 		go func() {
 			defer close(done)
 			defer h.VerifC33Ctl("exit", nil)
+			defer c33recover()
 			env = c33newEnv()
 			f1, f2, f3, ok := c33funcs(env)
 			if !ok {
@@ -276,10 +329,11 @@ func c33runScenario(kind string, seed int64, procs, size int) (lines []string, t
 					s := r.Int63()
 					k := 1 + r.Intn(4)
 					if after && r.Intn(4) == 0 {
-						c33helpers.Add(1)
+						done := c33track()
 						time.AfterFunc(time.Duration(r.Intn(3))*100*time.Microsecond, func() {
-							defer c33helpers.Done()
+							defer done()
 							defer h.VerifC33Ctl("exit", nil)
+							defer c33recover()
 							c33calls(rand.New(rand.NewSource(s)), env, f1, f2, f3, k)
 						})
 					} else {
@@ -313,10 +367,11 @@ func c33runScenario(kind string, seed int64, procs, size int) (lines []string, t
 		// top-level evaluation by several goroutines, one after the other (F14)
 		keep := r.Intn(2) == 0 // the creator stays alive / exits
 		release := make(chan struct{})
-		c33helpers.Add(1)
+		creatorDone := c33track()
 		go func() {
-			defer c33helpers.Done()
+			defer creatorDone()
 			defer h.VerifC33Ctl("exit", nil)
+			defer c33recover()
 			env = c33newEnv()
 			env.eval("{ t := leaf(2); add(t) }")
 			close(done)
@@ -325,26 +380,44 @@ func c33runScenario(kind string, seed int64, procs, size int) (lines []string, t
 			}
 		}()
 		<-done
-		for i := 0; i < size; i++ {
+		// the evaluators exist before the first of them runs, so that they have pairwise distinct identities
+		starts := make([]chan string, size)
+		var evs sync.WaitGroup
+		for i := range starts {
+			starts[i] = make(chan string)
+			evs.Add(1)
+			go func(c chan string) {
+				defer evs.Done()
+				defer h.VerifC33Ctl("exit", nil)
+				defer c33recover()
+				for src := range c {
+					env.eval(src)
+					c <- ""
+				}
+			}(starts[i])
+		}
+		for i := 0; i < 2*size; i++ {
 			var src string
-			switch r.Intn(4) {
+			switch r.Intn(5) {
 			case 0:
 				src = "{ t := leaf(2); add(t) }"
 			case 1:
 				src = "for i := 0; i < 2; i++ { x := i; add(x) }"
 			case 2:
 				src = "wg.Add(1); go worker(1); wg.Wait()"
+			case 3:
+				src = "total + 1"
 			default:
 				src = "add(rec(2))"
 			}
-			d := make(chan struct{})
-			go func() {
-				defer close(d)
-				defer h.VerifC33Ctl("exit", nil)
-				env.eval(src)
-			}()
-			<-d
+			c := starts[r.Intn(size)]
+			c <- src
+			<-c // evaluation finished
 		}
+		for _, c := range starts {
+			close(c)
+		}
+		evs.Wait()
 		close(release)
 	case "reuse":
 		// F14 with identity reuse: the creator exits; goroutine E evaluates top-level code and blocks inside
@@ -356,12 +429,14 @@ func c33runScenario(kind string, seed int64, procs, size int) (lines []string, t
 		go func() {
 			defer close(evalDone)
 			defer h.VerifC33Ctl("exit", nil)
+			defer c33recover()
 			<-evalGo
 			env.eval("{ a := 1; inblock(); <-gate; add(a) }")
 		}()
 		go func() {
 			defer close(done)
 			defer h.VerifC33Ctl("exit", nil)
+			defer c33recover()
 			env = c33newEnv()
 			creator = h.VerifC33Ctl("goid", nil)[0]
 		}()
@@ -377,6 +452,7 @@ func c33runScenario(kind string, seed int64, procs, size int) (lines []string, t
 				res := make(chan bool)
 				rel := make(chan struct{})
 				go func() {
+					defer c33recover()
 					if h.VerifC33Ctl("goid", nil)[0] == creator {
 						f1(2)
 						h.VerifC33Ctl("exit", nil)
@@ -416,9 +492,15 @@ func c33runScenario(kind string, seed int64, procs, size int) (lines []string, t
 	}
 	if env != nil {
 		for _, m := range env.errs {
-			lines = append(lines, "error "+m+" => ERR")
+			lines = append(lines, "error "+truncate(m, 200)+" => ERR")
 		}
 	}
+	c33panics.Lock()
+	for _, m := range c33panics.msgs {
+		lines = append(lines, "error "+truncate(m, 200)+" => ERR")
+	}
+	c33panics.msgs = nil
+	c33panics.Unlock()
 	return lines, tags
 }
 
@@ -517,21 +599,25 @@ func c33translate(ev []uint64, reg []uint64) (lines []string, tags []string) {
 			}
 			return fmt.Sprintf("%s %d %d => r%d %s%s", ev, n, arg-1, run-1, own, shared)
 		}
+		fk := ""
+		if kind <= 4 && outer == 1 {
+			fk = " foreign-key" // a goroutine operated on the registry entry of another identity
+		}
 		switch kind {
 		case 1:
-			lines = append(lines, fmt.Sprintf("interp %d => r%d %s", n, run-1, own))
+			lines = append(lines, fmt.Sprintf("interp %d => r%d %s%s", n, run-1, own, fk))
 		case 2:
 			if run == 0 {
-				lines = append(lines, fmt.Sprintf("look %d => miss", n))
+				lines = append(lines, fmt.Sprintf("look %d => miss%s", n, fk))
 				tagset["look-miss"] = true
 			} else {
-				lines = append(lines, fmt.Sprintf("look %d => hit r%d", n, run-1))
+				lines = append(lines, fmt.Sprintf("look %d => hit r%d%s", n, run-1, fk))
 				tagset["look-hit"] = true
 			}
 		case 3:
-			lines = append(lines, fmt.Sprintf("store %d => r%d %s", n, run-1, own))
+			lines = append(lines, fmt.Sprintf("store %d => r%d %s%s", n, run-1, own, fk))
 		case 4:
-			lines = append(lines, fmt.Sprintf("del %d => ok", n))
+			lines = append(lines, fmt.Sprintf("del %d => ok%s", n, fk))
 			delete(live, id)
 			dead[id] = true
 		case 5:
@@ -653,6 +739,8 @@ func c33judge(body, real string) (string, string) {
 	switch {
 	case real == "HOOK-MISSING":
 		return "", "" // reported as model/impl mismatch: nothing can be observed without the hooks
+	case strings.Contains(real, "foreign-key"):
+		return "a goroutine operated on the registry entry of another goroutine identity: " + body + " -> " + real, "registry-foreign-key"
 	case strings.Contains(real, "foreign"):
 		key := "func-entry-foreign-run"
 		if ev == "block" || ev == "gopar" {
@@ -723,7 +811,7 @@ func c33exec(op string) Result {
 
 func c33gen(r *rand.Rand, tier string, emit func(string)) {
 	c33genRan = true
-	n := 24
+	n := 16
 	if tier == "thorough" {
 		n = 400
 	}
